@@ -241,6 +241,25 @@ def _shipped_task(task):
     return acc
 
 
+def _pattern_task(task):
+    """shipped groups: sessions whose message / shared element / scalar encodings carry a distinguished byte at every position"""
+    name, side, level, part, nparts = task
+    acc = Acc()
+    inst, why = T.try_get(name)
+    if inst is None:
+        acc.degrade("%s unavailable: %s" % (name, why))
+        return acc
+    pw = b"password"
+    sess = C.pattern_sessions(inst, side, pw, level)
+    mine = sess[part::nparts]
+    for j, (x, inbound, tag) in enumerate(mine):
+        check_session(inst, side, pw, C.ids_for(side, j), x, [inbound], acc, do_restored=(j % 3 == 0))
+    acc.inst(name, pattern_sessions=len(mine))
+    if mine and part == 0:
+        acc.sample({"inst": name, "side": side, "byte_pattern_session": mine[0][2], "x": str(mine[0][0])})
+    return acc
+
+
 def _golden(acc):
     g = golden.load()
     L = T.lib()
@@ -391,6 +410,16 @@ def run(tier, seed):
                     stasks.append((name, side, pw, xc, tier, seed))
     stasks.sort(key=lambda t: -T.get(t[0]).ref.esize)
     core.pmerge(_shipped_task, stasks, acc)
+    ptasks = []
+    for name in T.SHIPPED:
+        if T.try_get(name)[0] is None:
+            continue
+        np_ = {"ParamsEd25519": 6, "Params1024": 6, "Params2048": 10, "Params3072": 16}[name] * (1 if quick else 4)
+        for side in "ABS":
+            for part in range(np_):
+                ptasks.append((name, side, 0 if quick else 1, part, np_))
+    ptasks.sort(key=lambda t: -T.get(t[0]).ref.esize)
+    core.pmerge(_pattern_task, ptasks, acc)
     _golden(acc)
     _default_path(acc)
     return acc
